@@ -2,7 +2,7 @@
 import itertools
 import random
 
-from harness import common, diffexec, propkit
+from harness import common, diffexec, gen_place, propkit
 
 VFILES = ["theories/Namespace.v", "theories/Lower.v", "theories/FuncDef.v", "theories/KSem.v", "theories/KSim.v"]
 
@@ -147,7 +147,14 @@ def run(chk, build, replay=None):
                 chk.add_violation("the converted function differs in signature, call binding, returned value or in the evaluation of "
                                   "defaults/decorators", source=p, config=tr, status=st, detail=detail[:800])
     chk.coverage.setdefault("direct_oracle", {}).update(counts)
+    # the header (defaults, decorators) resolved in every kind of DEFINING scope: module, function locals / parameters /
+    # captured variables, class members, nested two deep, declared global, lambdas
+    placed = [] if replayed else [s for _, s in gen_place.function_placements()]
+    propkit.lower_correspondence(chk, placed, configs=[(False, False), (True, True)], label="converter(function placements)")
+    propkit.oracle_exec(chk, placed, triples, what="a function defined in a nested scope evaluates its defaults / decorators in "
+                        "a different scope or binds calls differently", reject_ok=False)
     chk.samples = [{"program": p} for p in progs[:3]]
     chk.coverage["input_distribution"] = {"parameter_list_shapes_total": len(shapes), "programs": len(progs),
+                                          "header_placement_programs": len(placed),
                                           "call_shapes": len(CALLS), "configs": len(triples),
                                           "exhaustive": chk.tier == "thorough"}
